@@ -715,6 +715,22 @@ def drive(rec, table, b, families, rng, exhaustive_queries, nsub=10, nmulti=12, 
                 T(fn, rng)
         return
     nolattice = table.tag.startswith(('widecontra', 'wideanti', 'widerand', 'giant'))
+    nolattice0 = table.tag.startswith(('widecontra', 'wideanti', 'widerand', 'giant'))
+    if b % 5 == 0 and hasattr(rec, 'ctx'):
+        # calls that fail (unknown labels, wrong types) before the checked calls: a rejected call must leave
+        # nothing behind that changes later answers
+        for bad in (lambda: rec.ctx.intension(['<no such object>']), lambda: rec.ctx.extension(['<no such property>']),
+                    lambda: rec.ctx[('<neither>',)], lambda: rec.ctx.neighbors(['<no such object>']),
+                    lambda: rec.ctx.intension([rec.olabels[0], '<no such object>']),
+                    lambda: rec.ctx.extension(rec.olabels[:1]), lambda: rec.ctx.intension(rec.plabels[:1]),
+                    lambda: rec.ctx.intension([None]), lambda: rec.ctx.tostring(frmat='no-such-format'),
+                    lambda: rec.ctx.lattice['<neither>',] if (families & lattice_fams and not nolattice0) else None,
+                    lambda: rec.ctx.lattice(['<no such property>']) if (families & lattice_fams and not nolattice0) else None,
+                    lambda: rec.ctx.lattice[10 ** 9] if (families & lattice_fams and not nolattice0) else None):
+            try:
+                bad()
+            except Exception:
+                pass
     if 'C05' in families and b % 2 == 0:
         # the lazy lattice is state: query the covers BEFORE it is computed on half of the behaviours ...
         for s in osubs:
